@@ -10,6 +10,7 @@ RULE = ('count sweep: structured datagrams of every protocol (sFlow with all sam
         'scope/option length) is replaced in turn by each of {0,1,1000,1001,65535,2^31-1,2^32-1}, processed by the real pipe '
         'in a child process with a 12 GiB address-space limit; property (implementation alone): the process survives and '
         'runtime.MemStats.TotalAlloc grows by at most 16 MiB + 256 x length x (1 + W) per datagram, W = widest template seen; '
+        'amplification: one small hostile unit (template record claiming 65535 fields, maximal options lengths, empty / unknown data set, sFlow sample with 2^32-1 records) repeated up to 1100 times in one datagram, same budget; '
         'fidelity: error class and messages == model for the same inputs. non-trivial = the mutated datagram still decodes '
         'far enough to allocate (more than 4 KiB); distinct by input')
 TRUSTED = ['Coq 8.16.1 kernel (coqc)', 'extraction + ocaml/main.ml glue', 'Go harness harness/alloc.go (runtime.ReadMemStats around DecodeFlow), bin/engine.py',
@@ -103,6 +104,61 @@ def run(chk):
             if delta > budget:
                 chk.record('scopeA', dict(concrete=True, input=a[:30000], impl=o[-200:], allocated=delta, budget=budget,
                            what='decoding one datagram allocated more than 16 MiB + 256 x length x (1 + W)'), {})
+    # amplification by repetition: one small hostile unit (a set whose template record claims 65535 fields, an options
+    # template with maximal scope / option lengths, an empty or unknown-template data set, an sFlow sample with a maximal
+    # record count) repeated until the datagram is full -- what one unit may cost must not be paid once per unit
+    def u16(x):
+        return x.to_bytes(2, 'big')
+
+    def u32(x):
+        return x.to_bytes(4, 'big')
+    units = []
+    for tset, oset in ((0, 1), (2, 3)):
+        units += [(tset, u16(256) + u16(65535)), (tset, u16(256) + u16(16000) + u16(1) + u16(4)),
+                  (oset, u16(257) + u16(65535) + u16(65535)), (oset, u16(257) + u16(65532) + u16(4)),
+                  (256, u32(0)), (300, b''), (tset, u16(256) + u16(1) + u16(82) + u16(65535))]
+    rep = []
+    for ver in (9, 10):
+        for sid, ub in units:
+            if (ver == 9) != (sid in (0, 1, 256, 300)) and sid not in (256, 300):
+                continue
+            st = u16(sid) + u16(4 + len(ub)) + ub
+            for n in (3, 50, 1100):
+                n = min(n, 8900 // len(st))
+                sets = st * n
+                if ver == 9:
+                    d = u16(9) + u16(n) + u32(1000) + u32(1700000000) + u32(1) + u32(7) + sets
+                else:
+                    d = u16(10) + u16(16 + len(sets)) + u32(1700000000) + u32(1) + u32(7) + sets
+                rep.append('alloc flow none =0a000001 #7d0 #1 =' + d.hex())
+    # sFlow: flow samples / expanded flow samples announcing 2^32-1 records, repeated
+    for fmt, hdr in ((1, 32), (3, 44)):
+        sample = u32(fmt) + u32(hdr) + bytes(hdr - 4) + u32(2 ** 32 - 1)
+        for n in (3, 50, 200):
+            d = u32(5) + u32(1) + bytes([10, 0, 0, 1]) + u32(0) + u32(1) + u32(1) + u32(n) + sample * n
+            rep.append('alloc flow none =0a000001 #18c7 #1 =' + d.hex())
+    irep = impl_run(chk.harness, rep, timeout=120.0)
+    chk.evals += len(rep)
+    chk.count('amplification by repetition', len(rep))
+    for a, o in zip(rep, irep):
+        if o in ('hang', 'crash', 'panic'):
+            chk.record('scopeA', dict(concrete=True, input=a[:30000], impl=o,
+                       what='the process did not survive a datagram made of one hostile unit repeated'), {})
+            continue
+        steps = split_steps(o)
+        f = steps[-1].split(' ') if steps else []
+        try:
+            delta, ln, w = (int(x[1:], 16) for x in f[:3])
+        except Exception:
+            continue
+        if delta > 4096:
+            chk.nontrivial.add(hashlib.sha1(a.encode()).digest()[:8])
+        if delta > worst[0]:
+            worst = (delta, a)
+        if delta > 16 * 2 ** 20 + 256 * ln * (1 + w):
+            chk.record('scopeA', dict(concrete=True, input=a[:30000], impl=o[-200:], allocated=delta,
+                       budget=16 * 2 ** 20 + 256 * ln * (1 + w),
+                       what='a datagram made of one hostile unit repeated allocated more than 16 MiB + 256 x length x (1 + W)'), {})
     chk.count('count-field sweep', len(body))
     chk.notes.append('largest allocation observed for one datagram: %d bytes' % worst[0])
     chk.samples.append(dict(stream='sweep', worst_allocation=worst[0], input=worst[1][-600:]))
